@@ -38,6 +38,17 @@ def refl (C : Matrix (Fin n) (Fin n) R) (i : Fin n) : Matrix (Fin n) (Fin n) R :
 def geomRep (B : Matrix (Fin n) (Fin n) R) (i : Fin n) : Matrix (Fin n) (Fin n) R :=
   refl ((2 : R) • B) i
 
+/-- `CoxeterGroup.cartan_matrix(parameters)`: start from `2 * bilinear_form()`; for every index
+with a *negative* label whose parameter is specified (non-zero; a missing dictionary key counts
+as unspecified) overwrite that entry, and also the transposed entry unless that one is specified
+itself.  (`P` is the parameter array; the dictionary format denotes the same data.) -/
+def cartanMatrix [DecidableEq R] (B : Matrix (Fin n) (Fin n) R) (M : Matrix (Fin n) (Fin n) ℤ)
+    (P : Matrix (Fin n) (Fin n) R) : Matrix (Fin n) (Fin n) R :=
+  fun i j =>
+    if M i j < 0 ∧ P i j ≠ 0 then P i j
+    else if M j i < 0 ∧ P j i ≠ 0 ∧ P i j = 0 then P j i
+    else ((2 : R) • B) i j
+
 /-- the homomorphism composed in `canonical_representation`: `utils.invert(mat.T)` -/
 noncomputable def dualMat (M : Matrix (Fin n) (Fin n) R) : Matrix (Fin n) (Fin n) R := (Mᵀ)⁻¹
 
